@@ -329,7 +329,8 @@ def prop_run(case):
 
 @st.composite
 def bypass_case(draw):
-    p = draw(gen.thdm_mass(mrange=(50.0, 3000.0), types=(1, 2, 3, 4)))
+    # the Yukawa getters evaluate the running masses at the Higgs masses: scales from 1 GeV (below m_b) upwards
+    p = draw(gen.thdm_mass(mrange=draw(st.sampled_from([(50.0, 3000.0), (1.0, 50.0), (1.0, 3000.0)])), types=(1, 2, 3, 4)))
     for m in p["yuk"]["Delta"] + p["yuk"]["Pi"]:
         for row in m:
             row[:] = [0.0, 0.0, 0.0]
